@@ -316,10 +316,9 @@ pub fn oid_from_content(c: &[u8], lints: &Lints, what: &str) -> Result<Vec<u64>,
 			lints.add(format!("{what}: OID sub-identifier with leading 0x80"));
 		}
 		start = false;
-		if cur >> 100 != 0 {
-			return Err(format!("{what}: OID arc too large"));
-		}
-		cur = (cur << 7) | (b & 0x7f) as u128;
+		// arcs are unbounded; this reader reports them as u64 and saturates beyond (comparisons that
+		// matter are made on the raw bytes)
+		cur = if cur >> 100 != 0 { u128::MAX >> 8 } else { (cur << 7) | (b & 0x7f) as u128 };
 		if b & 0x80 == 0 {
 			subs.push(cur);
 			cur = 0;
@@ -338,10 +337,7 @@ pub fn oid_from_content(c: &[u8], lints: &Lints, what: &str) -> Result<Vec<u64>,
 	};
 	let mut out = Vec::with_capacity(subs.len() + 1);
 	for v in [a, b].into_iter().chain(subs[1..].iter().copied()) {
-		if v > u64::MAX as u128 {
-			return Err(format!("{what}: OID arc exceeds u64"));
-		}
-		out.push(v as u64);
+		out.push(v.min(u64::MAX as u128) as u64);
 	}
 	Ok(out)
 }
